@@ -199,7 +199,9 @@ def run(tier, seed):
                     break
             elif g == "typed":
                 # e + 0 etc. is e again when e has the expected type; otherwise only the error class of e itself is comparable
-                if ref[0] == "none" and type_of(ref[1]) == typ and nme not in ("if_cond", "if_neg_cond", "while_cond"):
+                # slice_all writes the expression twice: with an expression that writes, the output legitimately doubles
+                if ref[0] == "none" and type_of(ref[1]) == typ and nme not in ("if_cond", "if_neg_cond", "while_cond") \
+                        and not (nme == "slice_all" and ref[2]):
                     if (o[0], o[2]) != (ref[0], ref[2]) or (typ != "float" and o[1] != ref[1] and nme != "slice_all"):
                         differs(("value", "top"), key, "identity embedding")
                         break
